@@ -60,8 +60,26 @@ func (e *env) signerCaseOnce(st tla.State, rep int) {
 	ht := byte(ctx.F("ht").Int())
 	hType := txscript.SigHashType(ht)
 	idx1 := ctx.F("idx").Int()
+	// hts[i] is the hash type signer i signs with (all equal unless the
+	// cosigners sign in rounds)
+	hts := cs.F("hts").Ints()
+	order := cs.F("order").Str()
 	cls := className(alg, int(ht))
+	mixed := false
+	for _, h := range hts[1:] {
+		if h != hts[0] {
+			mixed = true
+			cls = className(alg, hts[0]) + "+" + className(alg, h)
+		}
+	}
 	tag := fmt.Sprintf("signer/%s/compressed=%v/%s/in%d-of-%d/out%d", otype, comp, cls, idx1, txr.F("ins").Len(), txr.F("outs").Len())
+	if order != "once" {
+		tag += "/" + order
+		e.st.add("signer-rounds", 1)
+		if mixed && hts[0]%32 == hts[1]%32 {
+			e.st.add("signer-rounds-anyonecanpay-differs", 1)
+		}
+	}
 	c.AddTraces(1)
 	e.st.add("signer", 1)
 	c.Distinct(tag)
@@ -139,12 +157,22 @@ func (e *env) signerCaseOnce(st tla.State, rep int) {
 		lookup[in.PreviousOutPoint] = prev[i]
 	}
 	sp := &spend{tx: tx, prev: prev, idx: idx, pk: pk, amount: amt, fetcher: txscript.NewMultiPrevOutFetcher(lookup)}
-	want, err := r.digest(ex.F("digest"))
-	if err != nil {
-		e.infra.set(fmt.Errorf("%s: rendering the specification's digest: %w", tag, err))
+	var wants [][]byte // the digest of every signer, for the signer's own hash type
+	var wantHex []string
+	for _, d := range ex.F("digests").Seq() {
+		w, err := r.digest(d)
+		if err != nil {
+			e.infra.set(fmt.Errorf("%s: rendering the specification's digest: %w", tag, err))
+			return
+		}
+		wants = append(wants, w)
+		wantHex = append(wantHex, hx(w))
+	}
+	if len(wants) != len(keys) || len(hts) != len(keys) {
+		e.infra.set(fmt.Errorf("%s: %d signers, %d hash types, %d digests", tag, len(keys), len(hts), len(wants)))
 		return
 	}
-	replay := sigReplay(cs, ex, nil, sp, map[string]any{"otype": otype, "rendered_digest": hx(want)})
+	replay := sigReplay(cs, ex, nil, sp, map[string]any{"otype": otype, "rendered_digests": wantHex, "hash_types": hts, "order": order})
 
 	// key and script lookups for SignTxOutput
 	byAddr := map[string]struct {
@@ -188,12 +216,16 @@ func (e *env) signerCaseOnce(st tla.State, rep int) {
 		case alg == "legacy" && otype == "sigscript-p2pkh":
 			in.SignatureScript, herr = txscript.SignatureScript(tx, idx, pk, hType, key, comp)
 		case alg == "legacy" && strings.HasSuffix(otype, "-merged"):
-			// one signer at a time, the last one first; each pass gets the
-			// result of the previous one to merge with
+			// one signer per round, each with its own hash type; every round
+			// gets the result of the previous one to merge with
 			var prevScript []byte
-			for i := len(keys) - 1; i >= 0 && herr == nil; i-- {
+			for n := 0; n < len(keys) && herr == nil; n++ {
+				i := n
+				if order == "last-key-first" {
+					i = len(keys) - 1 - n
+				}
 				only = map[*btcec.PrivateKey]bool{keys[i]: true}
-				prevScript, herr = txscript.SignTxOutput(netParams, tx, idx, pk, hType, kdb, sdb, prevScript)
+				prevScript, herr = txscript.SignTxOutput(netParams, tx, idx, pk, txscript.SigHashType(hts[i]), kdb, sdb, prevScript)
 			}
 			only = map[*btcec.PrivateKey]bool{}
 			in.SignatureScript = prevScript
@@ -290,6 +322,7 @@ func (e *env) signerCaseOnce(st tla.State, rep int) {
 		c.AddEval(1)
 		e.st.add("signer-signatures", 1)
 		good := false
+		want, ht := wants[i], byte(hts[i])
 		if alg == "legacy" || alg == "v0" {
 			if s[len(s)-1] == ht {
 				if ps, perr := ecdsa.ParseDERSignature(s[:len(s)-1]); perr == nil {
@@ -344,8 +377,9 @@ func (e *env) signerCaseOnce(st tla.State, rep int) {
 			}
 		}
 	}
-	if rep == 0 && ht == 0x83 && idx1 == 2 && txr.F("ins").Len() == 2 && (otype == "p2tr-leaf" || otype == "p2sh-multisig-2of3-merged" || otype == "p2wpkh" && !comp) {
-		c.Sample(map[string]any{"kind": "signer case", "case": tag, "digest_layout": clip(ex.F("digest").String(), 1500), "rendered_digest": hx(want),
+	if rep == 0 && ht == 0x83 && idx1 == 2 && txr.F("ins").Len() == 2 &&
+		(otype == "p2tr-leaf" || otype == "p2sh-multisig-2of3-merged" && hts[1] == 0x03 && order == "last-key-first" || otype == "p2wpkh" && !comp) {
+		c.Sample(map[string]any{"kind": "signer case", "case": tag, "hash_types": hts, "digest_layout": clip(ex.F("digests").String(), 2500), "rendered_digests": wantHex,
 			"signatures": len(sigs), "verifies_consensus_flags": ex.F("cons").Bool(), "verifies_standard_flags": ex.F("std").Bool()})
 	}
 }
